@@ -34,7 +34,7 @@ def recase(s, rng):
 
 
 GHOSTS = ["aGhost", "aNoFile", "aTypo"]      # entities that have no file in the workspace
-DRESS = "bcalmr"                              # wsutil::render: what stands above the header / how the file is encoded (no `k` here)
+DRESS = "bcalmrsg"                              # wsutil::render: what stands above the header / how the file is encoded (no `k` here)
 
 
 def dress(rng, p=(1, 4)):
@@ -396,7 +396,7 @@ def run(ctx):
     ctx.assumptions += [
         "'bounded time' is measured (deadline %s ms per request, confirmed blocked via /proc); the theorems give termination with all locks released on the model" % os.environ.get("VERIF_LOCK_DEADLINE_MS", "1500"),
         "requests run one at a time on a fresh manager per case (concurrent requests are C03's subject)",
-        "file stem = class name; workspaces are the generator's (<= 4 files, each a class or a file without class header, + optional bare file without a class; members m1 m2 f1, uses over <= 4 entities incl. self-use, unknown types, method bodies)",
+        "file stem = class name; workspaces are the generator's (<= 4 files — 24 in the chain cases —, each a class, a module, a file without class header or an empty file, + optional bare file without a class; members m1 m2 f1, uses over <= 4 entities incl. self-use and over entities without a file, unknown types, method bodies); what stands above the header, the encoding, the directory and the extension's letter case change no declaration (the model ignores these flags)",
     ]
     if ctx.replay:
         return replay(ctx)
@@ -442,6 +442,11 @@ RULE = ("cases = corpus (self parent in every letter case, mutual parents, longe
         "header-less files that use each other / themselves / classes) "
         "+ parent assignments (each class: none, any class incl. itself, a missing class; parent references in random letter case) x uses-graphs x analysis order (requests on the files "
         "forwards or backwards); every case issues diag, def, comp, hier, hierx on every file, each on its own thread with a deadline. "
+        "uses lists that name entities WITHOUT a file at every position (first, middle, last, only, twice in two spellings) x flags (body with unresolvable names, unknown types, header-less) x parents "
+        "(none, a class, a missing class) deterministically, + random workspaces over real entities and ghosts, + ghosts put into one uses list in five of all other cases; def / hier also ask about "
+        "the names in the uses line, the types of the locals and the undeclared names, comp also after `o.` for a local whose type has no file; "
+        "empty files (zero bytes, byte order mark / blank lines / comments only) and `module` headers as used entity, parent and user; chains of 24 classes (rooted, missing parent, one big cycle); "
+        "one file in four dressed (blank lines / comment / annotation above the header, Latin-1 bytes, byte order mark, CRLF, sub-directory, .GOD). "
         "header-less files (flag n: no class line, but uses list, members, unknown types, bodies): every uses-graph incl. self-use over 2 and 3 files x header-less subsets, "
         "and over 3 files used by a class. distinct_nontrivial = distinct implementation outputs among workspaces that have a self parent, a parent cycle or a header-less file with a uses list")
 
